@@ -19,6 +19,7 @@ fn main() {
 			"C02" => checks::c02::replay("C02", &name, &actions),
 			"C03" => checks::c02::replay("C03", &name, &actions),
 			"C05" => checks::c05::replay(&name, &actions),
+			"C07" => checks::c07::replay(&name, &actions),
 			"C09" => checks::c09::replay(&name, &actions),
 			"C10" => checks::c10::replay(&name, &actions),
 			_ => cli::die("replay: unknown property"),
@@ -31,6 +32,7 @@ fn main() {
 		"C03" => checks::c02::run(&args, "C03"),
 		"C04" => checks::c04::run(&args),
 		"C05" => checks::c05::run(&args),
+		"C07" => checks::c07::run(&args),
 		"C09" => checks::c09::run(&args),
 		"C10" => checks::c10::run(&args),
 		"C12" => checks::c12::run(&args),
